@@ -39,7 +39,9 @@ package urltree
 //@   loop 1 invariant[deepest-wildcard] -1 <= wj && wj < idx1 && (wj == -1 ==> foundWildcardNode == nil && forall(j, 0, idx1, path[j].WildcardChild == nil)) && (wj >= 0 ==> foundWildcardNode != nil && foundWildcardNode == path[wj].WildcardChild && forall(j, wj + 1, idx1, path[j].WildcardChild == nil))
 //@   ensures[walk-starts-at-the-root] path[0] == urlTree.Root && 0 <= nw && nw <= len(splitURL)
 //@   ensures[literal-then-parameter] forall(j, 0, nw, stepTo(path[j], splitURL[j], path[j+1]))
-//@   ensures[stops-only-without-a-child] nw < len(splitURL) ==> !litStep(path[nw], splitURL[nw]) && !parStep(path[nw], splitURL[nw])
+// (a trailing "*" part is the look-up of a declared wildcard pattern: it ends at the wildcard child when there is one)
+//@   ensures[stops-only-without-a-child] nw < len(splitURL) && !(splitURL[nw].Value == "*" && nw == len(splitURL) - 1 && path[nw].WildcardChild != nil) ==> !litStep(path[nw], splitURL[nw]) && !parStep(path[nw], splitURL[nw])
+//@   ensures[declared-wildcard-pattern-finds-its-own-node] nw == len(splitURL) - 1 && splitURL[nw].Value == "*" && path[nw].WildcardChild != nil && !litStep(path[nw], splitURL[nw]) ==> result.match && result.node == path[nw].WildcardChild
 //@   ensures[exact-node-wins] nw == len(splitURL) && path[nw].Value != nil ==> result.match && result.node == path[nw]
 //@   ensures[deepest-wildcard-is-the-fall-back] result.match && !(nw == len(splitURL) && path[nw].Value != nil) ==> result.node != nil && exists(d, 0, nw + 1, result.node == path[d].WildcardChild && forall(j, d + 1, nw + 1, path[j].WildcardChild == nil))
 //@   ensures[no-match-without-a-wildcard] !result.match && !(nw < len(splitURL) && strings.HasPrefix(splitURL[nw].Value, "{") && strings.HasSuffix(splitURL[nw].Value, "}")) ==> forall(j, 0, nw + 1, path[j].WildcardChild == nil)
